@@ -250,7 +250,7 @@ def main(ck):
     ck.note('engine_runs_tasks', len(tasks))
 
     # ---------------------------------------------------------------- 3. K1 via the driver
-    k1_bad, lean = [], {}
+    k1_bad, lean, specq = [], {}, {}
     if not shape_errors:
         reqs = []
         for w in ('implicit', 'explicit', 'docimplicit', 'docexplicit', 'docallowed'):
@@ -272,7 +272,6 @@ def main(ck):
             reqs.append('doy %d %d %d' % (d.year, d.month, d.day))
             reqs.append('dateofdoy %d %d' % (d.year, d.timetuple().tm_yday))
         reqs += ['doy 2021 2 29', 'doy 2020 13 1', 'dateofdoy 2021 366', 'leap 1900', 'leap 2000']
-        specq = {}
         for (s, t, lv, rv), (v, o) in eng_out.items():
             q = 'cast %d %d %s' % (IX[s], IX[t], lit(s, v)); specq[(s, t, rv)] = q; reqs.append(q)
         reqs = list(dict.fromkeys(reqs))
@@ -313,7 +312,10 @@ def main(ck):
     ck.note('k1_requests', len(lean)); ck.note('k1_disagreements', len(k1_bad))
 
     # ---------------------------------------------------------------- 4. the property on the real engine
-    def allowed(s, t): return lean.get('tbl docallowed %d %d' % (IX[s], IX[t])) == 'true' if lean else None
+    def allowed(s, t):
+        if lean: return lean.get('tbl docallowed %d %d' % (IX[s], IX[t])) == 'true'
+        if doc: return doc['explicit'].get((s, t)) == 'y' or doc['implicit'].get((s, t)) == 'y'
+        return None
     n_table = n_vals = 0
     level_name = {'sc': 'scalar', 'dc': 'component', 'ds': 'dataset'}
     for (s, t) in pairs:
@@ -337,12 +339,13 @@ def main(ck):
                 ck.violation('cast_type:%s->%s:%s:%s' % (s, t, lv, so[lv][1]), {'semantic_analysis': repr(so)},
                              'cast %s -> %s at %s level is typed %s' % (s, t, level_name[lv], so[lv][1]))
         # rename rule at dataset level
-        if acc['ds'] and lean:
-            want = lean['rename %d %d' % (IX[s], IX[t])]
-            want_name = 'Me_1' if want == 'keep' else want
+        if acc['ds']:
+            if lean:
+                want = lean['rename %d %d' % (IX[s], IX[t])]
+                want_name = 'Me_1' if want == 'keep' else want
+                if so['ds'][2] != want_name:
+                    k1_bad.append(('rename %s %s' % (s, t), 'lean=%s engine=%s' % (want_name, so['ds'][2])))
             docwant = 'Me_1' if (doc and doc['implicit'].get((s, t)) == 'y') else (doc['rename'].get(t) if doc else None)
-            if so['ds'][2] != want_name:
-                k1_bad.append(('rename %s %s' % (s, t), 'lean=%s engine=%s' % (want_name, so['ds'][2])))
             if docwant is not None and so['ds'][2] != docwant:
                 ck.violation('cast_rename:%s->%s:%s' % (s, t, so['ds'][2]), {'script': 'r <- cast(DS_1, %s);' % VT[t], 'source_type': s, 'measure': so['ds'][2], 'documented': docwant},
                              'cast(DS_1, %s) on a %s measure names the result measure %s, documented: %s' % (VT[t], s, so['ds'][2], docwant))
